@@ -2,6 +2,7 @@
 from __future__ import annotations
 
 import ast
+import re
 
 from ..cfg import typestate, witness_path
 from ..core import INCONCLUSIVE, OK, VIOLATION, Ctx, bool_equiv, canon, is_self_attr, local_defs, parse_cond
@@ -321,6 +322,8 @@ def _far_enough_filter(ctx: Ctx, cls_name: str, helper_name: str, want_filter: s
     def is_helper_call(c):
         return isinstance(c, ast.Call) and isinstance(c.func, ast.Attribute) and is_self_attr(c.func, helper_name, selfn)
 
+    projected = set()  # loop variables that hold a sibling's centroid (loop over [s.centroid for s in siblings])
+
     def check_pred_call(c, ind, sib, where):
         args = [canon(a, vdefs) for a in c.args] + [None] * 3
         kw = {k.arg: canon(k.value, vdefs) for k in c.keywords if k.arg}
@@ -329,12 +332,12 @@ def _far_enough_filter(ctx: Ctx, cls_name: str, helper_name: str, want_filter: s
         for i, pn in enumerate(hp[:3]):
             if args[i] is None and pn in kw:
                 args[i] = kw[pn]
-        ok_args = args[0] == ind and args[1] == f"{sib}.centroid"
+        ok_args = args[0] == ind and (args[1] == f"{sib}.centroid" or (sib in projected and args[1] == sib))
         if ok_args:
             st = OK
         elif args[0] == ind and args[1] is not None and args[1].startswith(f"{sib}.") and args[1] != f"{sib}.centroid":
             st = VIOLATION  # another attribute of the sibling (a stale cache field, the seed, ...)
-        elif args[0] == ind and args[1] is not None and (args[1].startswith(f"{deme_v}.") or "_centroid" in args[1]):
+        elif args[0] == ind and args[1] is not None and (args[1].startswith(f"{deme_v}.") or re.search(r"\._centroid\b", args[1])):
             st = VIOLATION
         else:
             st = INCONCLUSIVE
@@ -366,8 +369,27 @@ def _far_enough_filter(ctx: Ctx, cls_name: str, helper_name: str, want_filter: s
         if not refilters:
             continue
         hits += 1
+        # `for sib in S: if c: <re-filter>` is the loop over [sib for sib in S if c]
+        eff_iter, eff_body = sl.iter, sl.body
+        it0 = sl.iter
+        if isinstance(it0, ast.Name) and len(vdefs.get(it0.id, [])) == 1:
+            it0 = vdefs[it0.id][0]
+        if isinstance(it0, (ast.ListComp, ast.GeneratorExp)) and len(it0.generators) == 1 and isinstance(it0.generators[0].target, ast.Name) and isinstance(it0.elt, ast.Attribute) and it0.elt.attr == "centroid" and isinstance(it0.elt.value, ast.Name) and it0.elt.value.id == it0.generators[0].target.id:
+            # the loop runs over the siblings' centroids, read once per sibling: same sibling set, projected
+            projected.add(sib)
+            eff_iter = ast.ListComp(elt=ast.Name(id=it0.generators[0].target.id, ctx=ast.Load()), generators=it0.generators)
+            ast.copy_location(eff_iter, sl.iter)
+            ast.fix_missing_locations(eff_iter)
+        guards = []
+        while len(eff_body) == 1 and isinstance(eff_body[0], ast.If) and not eff_body[0].orelse and not isinstance(sl.iter, (ast.ListComp, ast.GeneratorExp)):
+            guards.append(eff_body[0].test)
+            eff_body = eff_body[0].body
+        if guards:
+            eff_iter = ast.ListComp(elt=ast.Name(id=sib, ctx=ast.Load()), generators=[ast.comprehension(target=ast.Name(id=sib, ctx=ast.Store()), iter=sl.iter, ifs=guards, is_async=0)])
+            ast.copy_location(eff_iter, sl.iter)
+            ast.fix_missing_locations(eff_iter)
         # (a) sibling set provenance
-        st, why = _sibling_set_status(sl.iter, tree_p, deme_v, selfn, want_filter, vdefs)
+        st, why = _sibling_set_status(eff_iter, tree_p, deme_v, selfn, want_filter, vdefs)
         obs.append(ctx.ob("R09.3", f, sl.iter, status=st, detail=f"{cls_name}: siblings = {why}" if st == OK else f"{cls_name}: {why}", construct="siblings"))
         # (b) the re-filter: [ind for ind in <cur> if pred(ind, sib.centroid, ...)], assigned back to <cur>
         for rf in refilters:
@@ -382,7 +404,7 @@ def _far_enough_filter(ctx: Ctx, cls_name: str, helper_name: str, want_filter: s
                 restart = canon(g.iter, vdefs) == cand_list
                 obs.append(ctx.ob("R09.3", f, rf, status=VIOLATION if restart else INCONCLUSIVE, detail=f"{cls_name}: every sibling re-filters `{norm(g.iter)}` instead of the running list `{cur}`: only the last sibling counts" if restart else f"{cls_name}: candidate re-filter has an unrecognised shape", construct="refilter"))
                 continue
-            if rf not in sl.body:
+            if rf not in eff_body:
                 obs.append(ctx.ob("R09.3", f, rf, status=INCONCLUSIVE, detail=f"{cls_name}: the re-filter is nested in further control flow inside the sibling loop", construct="refilter"))
                 continue
             ind = g.target.id
@@ -415,7 +437,7 @@ def _far_enough_filter(ctx: Ctx, cls_name: str, helper_name: str, want_filter: s
         # quantifier: no early exit from the sibling loop
         early = [n for n in ast.walk(sl) if isinstance(n, (ast.Break, ast.Return))]
         conts = [n for n in ast.walk(sl) if isinstance(n, ast.Continue)]
-        guards = [n for n in sl.body if isinstance(n, ast.If) and any(r in ast.walk(n) for r in refilters)]
+        guards = [n for n in eff_body if isinstance(n, ast.If) and any(r in ast.walk(n) for r in refilters)]
         if early:
             obs.append(ctx.ob("R09.3", f, early[0], status=VIOLATION, detail=f"{cls_name}: the loop over siblings can stop early: candidates are not compared with every sibling", construct="early-exit"))
         if conts:
